@@ -17,6 +17,9 @@ import (
 	"fmt"
 	"math"
 	"os"
+	"path/filepath"
+	"runtime"
+	"runtime/debug"
 	"sort"
 	"strings"
 	"sync"
@@ -243,6 +246,17 @@ func (eng) executeCk(c *hx.Case) (*hx.Result, error) {
 	verifhook.SetTuning("dkv", dkv.VerifDBTuning{MemTableSize: cf.MemTable})
 	defer verifhook.SetTuning("timer_cache_bytes", nil)
 	defer verifhook.SetTuning("dkv", nil)
+	// A crash kills the process; here the crashed incarnation's objects stay in this process. Table objects that its
+	// compactions replaced delete their files BY NAME when they are garbage collected, and the restored DB re-uses those
+	// names (it numbers its tables after the checkpoint's): no collection while the case runs (DESIGN D8/D11, C09's subject).
+	defer debug.SetGCPercent(debug.SetGCPercent(-1))
+	if stale, _ := filepath.Glob("/var/tmp/verif-C10-ck-*"); len(stale) > 0 { // left behind by a worker that died
+		for _, d := range stale {
+			if st, err := os.Stat(d); err == nil && time.Since(st.ModTime()) > 15*time.Minute {
+				os.RemoveAll(d)
+			}
+		}
+	}
 	dir, err := os.MkdirTemp("/var/tmp", "verif-C10-ck-")
 	if err != nil {
 		return nil, err
@@ -293,6 +307,22 @@ func (eng) executeCk(c *hx.Case) (*hx.Result, error) {
 		}
 		return err
 	}
+	// a crash kills the process: nothing of the old incarnation runs on. Here the old Operator lives in the same process,
+	// so its DKV's background flushes / compactions are awaited before anything else touches the storage directory.
+	halt := func(inc *incarnation) error {
+		inc.op.Halt()
+		select {
+		case <-inc.stopped:
+		case <-time.After(10 * time.Second):
+			return fmt.Errorf("operator did not stop")
+		}
+		if db := inc.op.VerifDKV(); db != nil {
+			if err := db.WaitOnTasks(); err != nil {
+				return fmt.Errorf("old incarnation's DKV tasks: %v", err)
+			}
+		}
+		return nil
+	}
 	ckptID := uint64(0)
 	barrier := func(inc *incarnation) error {
 		ckptID++
@@ -315,6 +345,10 @@ func (eng) executeCk(c *hx.Case) (*hx.Result, error) {
 	if err != nil {
 		return nil, err
 	}
+	// every incarnation stays reachable until the case is over: a collected Operator's DB deletes table files that the
+	// operator re-deployed from its checkpoint in the same process still reads (DESIGN D11, property C09's subject)
+	keep := []*incarnation{inc}
+	defer func() { runtime.KeepAlive(keep) }()
 	keysUsed := map[string][]byte{}
 	lastWm := map[string]int64{}
 	var pre []hcallJ
@@ -361,11 +395,8 @@ func (eng) executeCk(c *hx.Case) (*hx.Result, error) {
 			if job.OperatorCheckpoint == nil {
 				continue // nothing to restore from
 			}
-			inc.op.Halt()
-			select {
-			case <-inc.stopped:
-			case <-time.After(10 * time.Second):
-				return nil, fmt.Errorf("op %d: operator did not stop", i)
+			if err := halt(inc); err != nil {
+				return nil, fmt.Errorf("op %d: %v", i, err)
 			}
 			h.mu.Lock()
 			pre = append([]hcallJ{}, h.calls...)
@@ -378,6 +409,7 @@ func (eng) executeCk(c *hx.Case) (*hx.Result, error) {
 			if inc, err = start(m, job.OperatorCheckpoint); err != nil {
 				return nil, fmt.Errorf("op %d: redeploy: %v", i, err)
 			}
+			keep = append(keep, inc)
 			lastWm = map[string]int64{}
 			// probe every key, flush with a checkpoint: the key states of these requests are the restored state
 			ks := make([]string, 0, len(keysUsed))
@@ -409,11 +441,8 @@ func (eng) executeCk(c *hx.Case) (*hx.Result, error) {
 	if err := barrier(inc); err != nil { // final flush
 		return nil, err
 	}
-	inc.op.Halt()
-	select {
-	case <-inc.stopped:
-	case <-time.After(10 * time.Second):
-		return nil, fmt.Errorf("operator did not stop")
+	if err := halt(inc); err != nil {
+		return nil, err
 	}
 	wfinal := int64(math.MaxInt64)
 	for _, s := range srNames {
